@@ -86,3 +86,13 @@ Example C01_hyps_hold_5 :
             SSwitch (Some (SYield 4)) (Some 5) [(LVals [6], [SAtom 7])];
             SSwitch (Some (SYield 10)) None [(LCond 11, [SYield 12]); (LDefault, [SAtom 13])]] = true.
 Proof. vm_compute. reflexivity. Qed.
+(* a post statement that yields (no continue in the body targets that loop) *)
+Example C01_hyps_hold_6 :
+  c01_hyps [SFor (Some (SAtom 1)) (Some 2) (Some (SYield 3)) [SAtom 4; SIf None 5 [SBreak] ENone; SYield 6];
+            SFor None (Some 7) (Some (SYield 8)) [SAtom 9];
+            SFor None (Some 10) (Some (SYield 11)) [SIf None 12 [SYield 13] ENone]] = true.
+Proof. vm_compute. reflexivity. Qed.
+(* ... and with a continue the side conditions fail (finding F1: the compiled loop skips the post statement) *)
+Example C01_F1_outside :
+  c01_hyps [SFor None (Some 1) (Some (SYield 2)) [SIf None 3 [SContinue] ENone; SYield 4]] = false.
+Proof. vm_compute. reflexivity. Qed.
